@@ -21,7 +21,7 @@ theorem eval_zero_l (fs : FS) (incs : List String) (anc : List Path) (p : Path) 
 
 theorem eval_succ_l (fs : FS) (incs : List String) (n : Nat) (anc : List Path) (p : Path) :
     eval fs incs (n + 1) anc p =
-      match real fs p with
+      match ident fs p with
       | none => .error (.notFound p.leaf)
       | some r =>
         if anc.contains r then .error (.cyclic p)
@@ -70,7 +70,7 @@ theorem sameGo_nil_l (fs : FS) (incs : List String) (n : Nat) (p : Path) (st : S
 theorem sameGo_cons_l (fs : FS) (incs : List String) (n : Nat) (p : Path) (st : State)
     (leaf : String) (found : Option Path) (rest : List (String × Option Path)) :
     sameIncludes.go fs incs n p st ((leaf, found) :: rest) =
-      if (find fs leaf (searchDirs fs incs p)).bind (real fs) ≠ found then .error (.ambiguous p leaf)
+      if (find fs leaf (searchDirs fs incs p)).bind (ident fs) ≠ found then .error (.ambiguous p leaf)
       else
         match find fs leaf (searchDirs fs incs p), found with
         | some h, some f =>
@@ -92,7 +92,7 @@ theorem sameGo_cons_l (fs : FS) (incs : List String) (n : Nat) (p : Path) (st : 
       simp only [hh]
       rfl
 
-/-! ## `eval`: more fuel, same answer; the answer depends on the path only through its real path
+/-! ## `eval`: more fuel, same answer; the answer depends on the path only through its identity (`ident`)
     and its search directories -/
 
 theorem evalGo_mono_step_l (fs : FS) (incs : List String) (n : Nat)
@@ -128,7 +128,7 @@ theorem eval_mono_step_l (fs : FS) (incs : List String) (n : Nat)
     ∀ anc p x, eval fs incs (n + 1) anc p = .ok x → eval fs incs (n + 2) anc p = .ok x := by
   intro anc p x hx
   rw [eval_succ_l] at hx ⊢
-  cases hr : real fs p with
+  cases hr : ident fs p with
   | none => simp [hr] at hx
   | some r =>
     simp only [hr] at hx ⊢
@@ -184,17 +184,18 @@ theorem evalGo_congr_l (fs : FS) (incs : List String) (n : Nat) (anc : List Path
   | nil => rw [evalGo_nil_l, evalGo_nil_l]
   | cons leaf rest ih => rw [evalGo_cons_l, evalGo_cons_l, hd, ih]
 
-/-- `eval` depends on the path only through (real path, directories): the key of `verified` -/
+/-- `eval` depends on the path only through (identity, directories): the key of `verified`
+    (the identity `ident fs p` is the file; the real path only enters through `directoriesOf`) -/
 theorem eval_congr_l (fs : FS) (incs : List String) {n : Nat} {anc : List Path} {p p' : Path}
     {x : List String × List String × List (Nat × Path)}
-    (hr : real fs p' = real fs p) (hd : directoriesOf fs p' = directoriesOf fs p)
+    (hr : ident fs p' = ident fs p) (hd : directoriesOf fs p' = directoriesOf fs p)
     (h : eval fs incs n anc p = .ok x) : eval fs incs n anc p' = .ok x := by
   cases n with
   | zero => simp [eval_zero_l] at h
   | succ n =>
     rw [eval_succ_l] at h ⊢
     rw [hr]
-    cases hrr : real fs p with
+    cases hrr : ident fs p with
     | none => simp [hrr] at h
     | some r =>
       simp only [hrr] at h ⊢
@@ -290,14 +291,14 @@ theorem EvalsTo_mono_l {fs : FS} {incs : List String} {c c' : Cache_l} (h : Sub_
 
 /-- the meaning of `(r, dirs) ∈ verified` once `r` is finished with `res` -/
 def Correct_l (fs : FS) (incs : List String) (c : Cache_l) (key : Path × List String) (res : Result) : Prop :=
-  ∀ p, real fs p = some key.1 → directoriesOf fs p = key.2 → EvalsTo_l fs incs c p res
+  ∀ p, ident fs p = some key.1 → directoriesOf fs p = key.2 → EvalsTo_l fs incs c p res
 
 theorem Correct_mono_l {fs : FS} {incs : List String} {c c' : Cache_l} (h : Sub_l c c') {key : Path × List String}
     {res : Result} (he : Correct_l fs incs c key res) : Correct_l fs incs c' key res :=
   fun p h1 h2 => EvalsTo_mono_l h (he p h1 h2)
 
 theorem Correct_of_EvalsTo_l {fs : FS} {incs : List String} {c : Cache_l} {p r : Path} {res : Result}
-    (hr : real fs p = some r) (he : EvalsTo_l fs incs c p res) :
+    (hr : ident fs p = some r) (he : EvalsTo_l fs incs c p res) :
     Correct_l fs incs c (r, directoriesOf fs p) res := by
   intro p' h1 h2 anc ha
   obtain ⟨n, hn⟩ := he anc ha
@@ -367,7 +368,7 @@ theorem comp_go_l (fs : FS) (incs : List String) (c : Cache_l) (p r : Path) (anc
     simp only [List.flatMap_cons, h2, cres_of_fin_l h3]
 
 theorem comp_l {fs : FS} {incs : List String} {c : Cache_l} {io : IncTab_l} {p r : Path} {res : Result}
-    (hs : StructAt_l fs c io r res) (hr : real fs p = some r) (hfin : fin_l c r res)
+    (hs : StructAt_l fs c io r res) (hr : ident fs p = some r) (hfin : fin_l c r res)
     (hinc : ∀ l, io.lookup r = some l → ∀ e ∈ l, ∃ h f rf, find fs e.1 (searchDirs fs incs p) = some h ∧
       e.2 = some f ∧ fin_l c f rf ∧ EvalsTo_l fs incs c h rf) :
     EvalsTo_l fs incs c p res := by
@@ -413,7 +414,7 @@ def SIStmt_l (fs : FS) (incs : List String) (n : Nat) : Prop :=
   ∀ (c : Cache_l) (io : IncTab_l), Struct_l fs c io →
   ∀ (st : State) (r p : Path) (st' : State) (res : Result) (K : Nat),
     st.cache = c → st.includesOf = io → sameIncludes fs incs n st r p = .ok st' →
-    real fs p = some r → fin_l c r res → res.shape.length ≤ K → VOK_l fs incs c K st.verified →
+    ident fs p = some r → fin_l c r res → res.shape.length ≤ K → VOK_l fs incs c K st.verified →
     st'.cache = c ∧ st'.includesOf = io ∧ (∀ key ∈ st.verified, key ∈ st'.verified) ∧
     (r, directoriesOf fs p) ∈ st'.verified ∧ NewLe_l c res.shape.length st.verified st'.verified ∧
     VOK_l fs incs c K st'.verified
@@ -426,7 +427,7 @@ theorem sameGo_spec_l (fs : FS) (incs : List String) (n : Nat) (ih : SIStmt_l fs
       VOK_l fs incs c J stA.verified →
       st'.cache = c ∧ st'.includesOf = io ∧ (∀ key ∈ stA.verified, key ∈ st'.verified) ∧
       NewLe_l c J stA.verified st'.verified ∧ VOK_l fs incs c J st'.verified ∧
-      (∀ e ∈ l, ∃ h f, find fs e.1 (searchDirs fs incs p) = some h ∧ real fs h = some f ∧ e.2 = some f ∧
+      (∀ e ∈ l, ∃ h f, find fs e.1 (searchDirs fs incs p) = some h ∧ ident fs h = some f ∧ e.2 = some f ∧
         (f, directoriesOf fs h) ∈ st'.verified) := by
   intro l
   induction l with
@@ -443,15 +444,15 @@ theorem sameGo_spec_l (fs : FS) (incs : List String) (n : Nat) (ih : SIStmt_l fs
     simp only at hf
     subst hf
     rw [sameGo_cons_l] at hgo
-    by_cases hne : (find fs leaf (searchDirs fs incs p)).bind (real fs) ≠ some f
+    by_cases hne : (find fs leaf (searchDirs fs incs p)).bind (ident fs) ≠ some f
     · rw [if_pos hne] at hgo; cases hgo
     · rw [if_neg hne] at hgo
-      have heq : (find fs leaf (searchDirs fs incs p)).bind (real fs) = some f := Classical.not_not.mp hne
+      have heq : (find fs leaf (searchDirs fs incs p)).bind (ident fs) = some f := Classical.not_not.mp hne
       cases hh : find fs leaf (searchDirs fs incs p) with
       | none => rw [hh] at heq; cases heq
       | some h =>
         rw [hh] at heq
-        have hrh : real fs h = some f := heq
+        have hrh : ident fs h = some f := heq
         simp only [hh] at hgo
         cases hsi : sameIncludes fs incs n stA f h with
         | error err => simp [hsi] at hgo
@@ -543,7 +544,7 @@ theorem sameIncludes_spec_l (fs : FS) (incs : List String) : ∀ n, SIStmt_l fs 
 
 theorem processFile_succ_l (fs : FS) (incs : List String) (n : Nat) (st : State) (p : Path) :
     processFile fs incs (n + 1) st p =
-      match real fs p with
+      match ident fs p with
       | none => .error (.notFound p.leaf)
       | some r =>
         match st.names.lookup p.leaf with
@@ -595,26 +596,26 @@ theorem processIncludes_succ_l (fs : FS) (incs : List String) (n : Nat) (st : St
       | none => .error (.notFound leaf)
       | some g =>
         match processFile fs incs n { st with includesOf :=
-            (r, (st.includesOf.lookup r).getD [] ++ [(leaf, real fs g)]) :: st.includesOf } g with
+            (r, (st.includesOf.lookup r).getD [] ++ [(leaf, ident fs g)]) :: st.includesOf } g with
         | .error e => .error e
         | .ok (res, st2) =>
           match processIncludes fs incs n st2 p r rest with
           | .error e => .error e
           | .ok (vis, parsed, found, shapes, st3) =>
-            .ok (res.exports ++ vis, res.parsed ++ parsed, ((real fs g).toList ++ found),
+            .ok (res.exports ++ vis, res.parsed ++ parsed, ((ident fs g).toList ++ found),
               deeper res.shape ++ shapes, st3) := by
   simp only [processIncludes]
   cases find fs leaf (searchDirs fs incs p) <;> rfl
 
 theorem processFile_ok_inv_l {fs : FS} {incs : List String} {n : Nat} {st st' : State} {p : Path} {res : Result}
     (h : processFile fs incs n st p = .ok (res, st')) :
-    ∃ m r st0, n = m + 1 ∧ real fs p = some r ∧ st0.cache = st.cache ∧ st0.includesOf = st.includesOf ∧
+    ∃ m r st0, n = m + 1 ∧ ident fs p = some r ∧ st0.cache = st.cache ∧ st0.includesOf = st.includesOf ∧
       st0.verified = st.verified ∧ st0.nameOf = st.nameOf ∧ processNamed fs incs m st0 p r = .ok (res, st') := by
   cases n with
   | zero => simp [processFile] at h
   | succ m =>
     rw [processFile_succ_l] at h
-    cases hr : real fs p with
+    cases hr : ident fs p with
     | none => simp [hr] at h
     | some r =>
       simp only [hr] at h
@@ -702,7 +703,7 @@ theorem processIncludes_ok_inv_l {fs : FS} {incs : List String} {n : Nat} {st st
     (∃ m leaf rest g res st2 vis' parsed' found' shapes', n = m + 1 ∧ l = leaf :: rest ∧
       find fs leaf (searchDirs fs incs p) = some g ∧
       processFile fs incs m { st with includesOf :=
-            (r, (st.includesOf.lookup r).getD [] ++ [(leaf, real fs g)]) :: st.includesOf } g = .ok (res, st2) ∧
+            (r, (st.includesOf.lookup r).getD [] ++ [(leaf, ident fs g)]) :: st.includesOf } g = .ok (res, st2) ∧
       processIncludes fs incs m st2 p r rest = .ok (vis', parsed', found', shapes', st') ∧
       vis = res.exports ++ vis' ∧ shapes = deeper res.shape ++ shapes') := by
   cases l with
@@ -722,7 +723,7 @@ theorem processIncludes_ok_inv_l {fs : FS} {incs : List String} {n : Nat} {st st
       | some g =>
         simp only [hg] at h
         cases hp : processFile fs incs m ({ st with includesOf :=
-            (r, (st.includesOf.lookup r).getD [] ++ [(leaf, real fs g)]) :: st.includesOf } : State) g with
+            (r, (st.includesOf.lookup r).getD [] ++ [(leaf, ident fs g)]) :: st.includesOf } : State) g with
         | error e => simp [hp] at h
         | ok x =>
           obtain ⟨res, st2⟩ := x
@@ -743,7 +744,7 @@ theorem processIncludes_ok_inv_l {fs : FS} {incs : List String} {n : Nat} {st st
 
 /-- the invariant of the processor state (cache, `includes_of`, `verified`):
     * every finished entry is composed of its content and the finished entries of the includes recorded for it;
-    * every verified pair (real path, directories) of a finished file means: every path with that real path and these
+    * every verified pair (identity, directories) of a finished file means: every path with that identity and these
       directories evaluates (cache-free) to the cached result;
     * verified pairs only mention files that are in the cache -/
 structure Inv_l (fs : FS) (incs : List String) (c : Cache_l) (io : IncTab_l) (v : List (Path × List String)) : Prop where
@@ -785,7 +786,7 @@ theorem Frame_trans_l {c1 c2 c3 : Cache_l} {v1 v2 v3 : List (Path × List String
 /-- the outcome of `processFile` on `p`: the real file is finished, with the returned result (up to `parsed`), and the
     cache-free walk from `p` gives it -/
 def Out_l (fs : FS) (incs : List String) (c' : Cache_l) (p : Path) (res : Result) : Prop :=
-  ∃ r res0, real fs p = some r ∧ fin_l c' r res0 ∧ res0.exports = res.exports ∧ res0.visible = res.visible ∧
+  ∃ r res0, ident fs p = some r ∧ fin_l c' r res0 ∧ res0.exports = res.exports ∧ res0.visible = res.visible ∧
     res0.shape = res.shape ∧ EvalsTo_l fs incs c' p res0
 
 def PFStmt_l (fs : FS) (incs : List String) (n : Nat) : Prop :=
@@ -796,13 +797,13 @@ def PFStmt_l (fs : FS) (incs : List String) (n : Nat) : Prop :=
 
 def PKStmt_l (fs : FS) (incs : List String) (n : Nat) : Prop :=
   ∀ (st : State) (p r : Path) (res : Result) (st' : State), processKnown fs incs n st p r = .ok (res, st') →
-    real fs p = some r → Inv_l fs incs st.cache st.includesOf st.verified →
+    ident fs p = some r → Inv_l fs incs st.cache st.includesOf st.verified →
     Inv_l fs incs st'.cache st'.includesOf st'.verified ∧ Frame_l st.cache st.verified st'.cache st'.verified ∧
     IOF_l none st.cache st.includesOf st'.includesOf ∧ Out_l fs incs st'.cache p res
 
 def PNStmt_l (fs : FS) (incs : List String) (n : Nat) : Prop :=
   ∀ (st : State) (p r : Path) (res : Result) (st' : State), processNamed fs incs n st p r = .ok (res, st') →
-    real fs p = some r → Inv_l fs incs st.cache st.includesOf st.verified →
+    ident fs p = some r → Inv_l fs incs st.cache st.includesOf st.verified →
     Inv_l fs incs st'.cache st'.includesOf st'.verified ∧ Frame_l st.cache st.verified st'.cache st'.verified ∧
     IOF_l none st.cache st.includesOf st'.includesOf ∧ Out_l fs incs st'.cache p res
 
@@ -840,7 +841,7 @@ theorem PN_step_l (fs : FS) (incs : List String) (n : Nat) (hK : PKStmt_l fs inc
 
 theorem PK_hit_l (fs : FS) (incs : List String) (n : Nat) (st : State) (p r : Path) (res0 : Result) (st' : State)
     (hl : st.cache.lookup r = some (some res0)) (hs : sameIncludes fs incs n st r p = .ok st')
-    (hr : real fs p = some r) (hI : Inv_l fs incs st.cache st.includesOf st.verified) :
+    (hr : ident fs p = some r) (hI : Inv_l fs incs st.cache st.includesOf st.verified) :
     Inv_l fs incs st'.cache st'.includesOf st'.verified ∧ Frame_l st.cache st.verified st'.cache st'.verified ∧
     IOF_l none st.cache st.includesOf st'.includesOf ∧ Out_l fs incs st'.cache p { res0 with parsed := [] } := by
   have hfin : fin_l st.cache r res0 := hl
@@ -883,7 +884,7 @@ theorem PK_miss_l (fs : FS) (incs : List String) (n : Nat) (hPI : PIStmt_l fs in
     (hres : res = ⟨file.defines, vis ++ file.defines, r :: parsed, (0, r) :: shapes⟩)
     (e1 : st'.cache = (r, some res) :: st2.cache) (e2 : st'.includesOf = st2.includesOf)
     (e3 : st'.verified = st2.verified)
-    (hr : real fs p = some r) (hI : Inv_l fs incs st.cache st.includesOf st.verified) :
+    (hr : ident fs p = some r) (hI : Inv_l fs incs st.cache st.includesOf st.verified) :
     Inv_l fs incs st'.cache st'.includesOf st'.verified ∧ Frame_l st.cache st.verified st'.cache st'.verified ∧
     IOF_l none st.cache st.includesOf st'.includesOf ∧ Out_l fs incs st'.cache p res := by
   -- the state with the in-progress marker
@@ -1042,7 +1043,7 @@ theorem PI_step_l (fs : FS) (incs : List String) (n : Nat) (hPF : PFStmt_l fs in
     subst hm'
     subst hl
     -- the state after the include is recorded
-    have hI1 : Inv_l fs incs st.cache ((r, l0 ++ [(leaf, real fs g)]) :: st.includesOf) st.verified := by
+    have hI1 : Inv_l fs incs st.cache ((r, l0 ++ [(leaf, ident fs g)]) :: st.includesOf) st.verified := by
       refine ⟨?_, hI.correct, hI.known⟩
       intro x rx hx
       have hxr : x ≠ r := by
@@ -1052,7 +1053,7 @@ theorem PI_step_l (fs : FS) (incs : List String) (n : Nat) (hPF : PFStmt_l fs in
     rw [hio] at hp
     obtain ⟨hI2, F12, IO12, f, res0, hrg, hfin2, x1, x2, x3, hev2⟩ := hPF _ g res st2 hp hI1
     have F12 : Frame_l st.cache st.verified st2.cache st2.verified := F12
-    have IO12 : IOF_l none st.cache ((r, l0 ++ [(leaf, real fs g)]) :: st.includesOf) st2.includesOf := IO12
+    have IO12 : IOF_l none st.cache ((r, l0 ++ [(leaf, ident fs g)]) :: st.includesOf) st2.includesOf := IO12
     have hmark2 : st2.cache.lookup r = some none := by
       rw [F12.cache r (by rw [hmark]; simp), hmark]
     have hio2 : st2.includesOf.lookup r = some (l0 ++ [(leaf, some f)]) := by
@@ -1230,7 +1231,7 @@ theorem toId_inj_l {p q : Path} (h : toId_l p = toId_l q) : p = q := by
 
 /-- a file system without links: every file is an entry that targets itself -/
 def ofFiles (fs : List Files.File) : FS :=
-  { entries := fs.map fun f => ⟨toPath_l f.id, toPath_l f.id⟩,
+  { entries := fs.map fun f => ⟨toPath_l f.id, toPath_l f.id, toPath_l f.id⟩,
     files := fs.map fun f => ⟨toPath_l f.id, f.includes, f.defines⟩ }
 
 def toFile_l (f : Files.File) : File := ⟨toPath_l f.id, f.includes, f.defines⟩
@@ -1263,6 +1264,21 @@ theorem real_ofFiles_eq_l {fs : List Files.File} {p r : Path} (h : real (ofFiles
   cases hl : Files.lookupFile fs (toId_l p) with
   | none => simp [hl] at h
   | some f => simp [hl] at h; exact h.symm
+
+/-- without links the identity of a path is its real path (itself) -/
+theorem ident_eq_real_ofFiles_l (fs : List Files.File) (p : Path) : ident (ofFiles fs) p = real (ofFiles fs) p := by
+  unfold real ident ofFiles
+  induction fs with
+  | nil => rfl
+  | cons f fs ih =>
+    simp only [List.map_cons, List.find?_cons]
+    cases (toPath_l f.id == p) with
+    | true => rfl
+    | false => exact ih
+
+theorem ident_ofFiles_eq_l {fs : List Files.File} {p r : Path} (h : ident (ofFiles fs) p = some r) : r = p := by
+  rw [ident_eq_real_ofFiles_l] at h
+  exact real_ofFiles_eq_l h
 
 theorem content_ofFiles_l (fs : List Files.File) (p : Path) :
     content (ofFiles fs) p = (Files.lookupFile fs (toId_l p)).map toFile_l := by
@@ -1387,7 +1403,7 @@ theorem SimF_step_l (fs : List Files.File) (incs : List String) (n : Nat) (hK : 
   obtain ⟨m, r, st0, hm, hr, e1, _, _, _, hk⟩ := processFile_ok_inv_l h
   have hm' : m = n := by omega
   subst hm'
-  have := real_ofFiles_eq_l hr
+  have := ident_ofFiles_eq_l hr
   subst this
   have := hK st0 r res st' hk
   rw [e1] at this
@@ -1449,7 +1465,7 @@ theorem SimI_step_l (fs : List Files.File) (incs : List String) (n : Nat) (hF : 
     | some g =>
       simp only [hg, Option.map_some] at h ⊢
       rw [Files.swapDir_cons_p15]
-      cases hp : processFile (ofFiles fs) incs n ({ st with includesOf := (r, (st.includesOf.lookup r).getD [] ++ [(leaf, real (ofFiles fs) (toPath_l g))]) :: st.includesOf } : State) (toPath_l g) with
+      cases hp : processFile (ofFiles fs) incs n ({ st with includesOf := (r, (st.includesOf.lookup r).getD [] ++ [(leaf, ident (ofFiles fs) (toPath_l g))]) :: st.includesOf } : State) (toPath_l g) with
       | error e => simp [hp] at h
       | ok x =>
         obtain ⟨res, st2⟩ := x
@@ -1684,6 +1700,7 @@ theorem VStmt_all_l (fs : List Files.File) (incs : List String) :
       obtain ⟨m, r, st0, hm, hr, e1, _, e3, _, hk⟩ := processFile_ok_inv_l h
       have hm' : m = n := by omega
       subst hm'
+      rw [ident_eq_real_ofFiles_l] at hr
       have := real_ofFiles_eq_l hr
       subst this
       have := hN st0 r res st' hk hr (by intro x rx hx; rw [e1] at hx; rw [e3]; exact hV x rx hx)
@@ -1819,7 +1836,7 @@ theorem sameIncludes_nameOf_l (fs : FS) (incs : List String) :
         intro stA
         obtain ⟨leaf, found⟩ := e
         rw [sameGo_cons_l]
-        by_cases hne : (find fs leaf (searchDirs fs incs p)).bind (real fs) ≠ found
+        by_cases hne : (find fs leaf (searchDirs fs incs p)).bind (ident fs) ≠ found
         · rw [if_pos hne]; intro q h; cases h
         · rw [if_neg hne]
           cases hh : find fs leaf (searchDirs fs incs p) with
@@ -1873,17 +1890,17 @@ theorem NoTwo_all_l (fs : List Files.File) (incs : List String) :
     refine ⟨?_, ?_, ?_, ?_⟩
     · intro st p hV
       rw [processFile_succ_l]
-      cases hr : real (ofFiles fs) p with
+      cases hr : ident (ofFiles fs) p with
       | none => intro q h; cases h
       | some r =>
         simp only
         cases hn : st.names.lookup p.leaf with
-        | none => exact hN { st with names := (p.leaf, r) :: st.names } p r hV hr
+        | none => exact hN { st with names := (p.leaf, r) :: st.names } p r hV (ident_eq_real_ofFiles_l fs p ▸ hr)
         | some q0 =>
           simp only
           split
           · intro q h; cases h
-          · exact hN st p r hV hr
+          · exact hN st p r hV (ident_eq_real_ofFiles_l fs p ▸ hr)
     · intro st p r hV hr
       obtain ⟨st0, h0, _, _, _, _, heq⟩ := processNamed_ofFiles_l fs incs n st p r hV hr
       rw [heq]
@@ -1931,8 +1948,8 @@ theorem NoTwo_all_l (fs : List Files.File) (incs : List String) :
         | none => intro q h; cases h
         | some g =>
           simp only
-          have h1 := hF ({ st with includesOf := (r, (st.includesOf.lookup r).getD [] ++ [(leaf, real (ofFiles fs) g)]) :: st.includesOf } : State) g hV
-          cases hp : processFile (ofFiles fs) incs n ({ st with includesOf := (r, (st.includesOf.lookup r).getD [] ++ [(leaf, real (ofFiles fs) g)]) :: st.includesOf } : State) g with
+          have h1 := hF ({ st with includesOf := (r, (st.includesOf.lookup r).getD [] ++ [(leaf, ident (ofFiles fs) g)]) :: st.includesOf } : State) g hV
+          cases hp : processFile (ofFiles fs) incs n ({ st with includesOf := (r, (st.includesOf.lookup r).getD [] ++ [(leaf, ident (ofFiles fs) g)]) :: st.includesOf } : State) g with
           | error e => rw [hp] at h1; exact h1
           | ok y =>
             obtain ⟨res, st2⟩ := y
@@ -1984,7 +2001,7 @@ def sameGoS_l (rec : State → Path → Path → Except Err State) (fs : FS) (in
     State → List (String × Option Path) → Except Err State
   | st, [] => .ok st
   | st, (leaf, found) :: rest =>
-    if (find fs leaf (searchDirs fs incs p)).bind (real fs) ≠ found then .error (.ambiguous p leaf)
+    if (find fs leaf (searchDirs fs incs p)).bind (ident fs) ≠ found then .error (.ambiguous p leaf)
     else
       match find fs leaf (searchDirs fs incs p), found with
       | some h, some f =>
@@ -2040,7 +2057,7 @@ mutual
   def processFileS_l (fs : FS) (incs : List String) : Nat → State → Path → Except Err (Result × State)
     | 0, _, p => .error (.cyclic p)
     | fuel + 1, st, p =>
-      match real fs p with
+      match ident fs p with
       | none => .error (.notFound p.leaf)
       | some r =>
         match st.names.lookup p.leaf with
@@ -2083,7 +2100,7 @@ mutual
     | 0, _, _, _, leaf :: _ => .error (.notFound leaf)
     | fuel + 1, st, p, r, leaf :: rest =>
       let here := find fs leaf (searchDirs fs incs p)
-      let st1 := { st with includesOf := (r, (st.includesOf.lookup r).getD [] ++ [(leaf, here.bind (real fs))]) :: st.includesOf }
+      let st1 := { st with includesOf := (r, (st.includesOf.lookup r).getD [] ++ [(leaf, here.bind (ident fs))]) :: st.includesOf }
       match here with
       | none => .error (.notFound leaf)
       | some g =>
@@ -2093,7 +2110,7 @@ mutual
           match processIncludesS_l fs incs fuel st2 p r rest with
           | .error e => .error e
           | .ok (vis, parsed, found, shapes, st3) =>
-            .ok (res.exports ++ vis, res.parsed ++ parsed, ((real fs g).toList ++ found), deeper res.shape ++ shapes, st3)
+            .ok (res.exports ++ vis, res.parsed ++ parsed, ((ident fs g).toList ++ found), deeper res.shape ++ shapes, st3)
 end
 
 def processMainsS_l (fs : FS) (incs : List String) : List Path → State → Except Err (List (Path × Result))
@@ -2153,7 +2170,7 @@ def evalS_l (fs : FS) (incs : List String) : Nat → List Path → Path →
     Except Err (List String × List String × List (Nat × Path))
   | 0, _, p => .error (.cyclic p)
   | fuel + 1, anc, p =>
-    match real fs p with
+    match ident fs p with
     | none => .error (.notFound p.leaf)
     | some r =>
       if anc.contains r then .error (.cyclic p)
